@@ -997,11 +997,16 @@ func (w *c4worker) decoderCase(encName string, k c4kind, src []byte) {
 	})
 }
 
-func (w *c4worker) decoderStream(k c4kind) []byte {
+// maxBytes bounds the stream: the Lean mirrors written in index form (list indexing, one `set` per
+// byte written) are quadratic in the stream length
+func (w *c4worker) decoderStream(k c4kind, maxBytes int) []byte {
 	r := w.r
 	m := []int{0, 1, 2, 3, 7, 8, 9, 15, 16, 17, 31, 32, 33, 63, 64, 65, 127, 128, 129}[r.Intn(19)]
 	if r.Intn(6) == 0 {
 		m = r.Intn(600)
+	}
+	if m*k.width > maxBytes {
+		m = maxBytes / k.width
 	}
 	n := m * k.width
 	if k.width > 1 && r.Intn(4) == 0 {
@@ -1574,7 +1579,7 @@ func (w *c4worker) replayCorpusLine(line string) {
 }
 
 func RunC04Plain(ctx *core.Ctx) {
-	ctx.SetRule("C04/plain: (encoding in {PLAIN, BYTE_STREAM_SPLIT}) x physical type x value list (boundary pools incl. NaN payloads/-0.0/extremes, small alphabets, noise; lengths 0..9, 15..17, 31..33, 63..65, 127..129, 255..257, 511..513, 1023..1025) x dirty destination; dictionary cases = type x pre-load x batch split x values; malformed PLAIN BYTE_ARRAY streams; distinct by canonical input text; non-trivial = at least 2 values (dictionary: at least 2 distinct values and at least one repeat; malformed: at least 5 bytes)")
+	ctx.SetRule("C04/plain: (encoding in {PLAIN, BYTE_STREAM_SPLIT}) x physical type x value list (boundary pools incl. NaN payloads/-0.0/extremes, small alphabets, noise; lengths 0..9, 15..17, 31..33, 63..65, 127..129, 255..257, 511..513, 1023..1025) x dirty destination; dictionary cases = type x pre-load x batch split x values; malformed PLAIN BYTE_ARRAY streams; Go PLAIN/BYTE_STREAM_SPLIT decoders on arbitrary byte strings (any multiple of the width is conformant) into dirty destinations; C04/dictpage: type x dictionary (1..300 distinct entries) x index page written by the harness (declared width needed..32, random RLE/bit-packed segmentation, padded last group; conformant / short / id outside the dictionary) x recycled index buffer (capacity 0, <n, =n, >n; content last id / beyond / random / zero), and hand-assembled files of 1..4 data pages read three times; distinct by canonical input text; non-trivial = at least 2 values (dictionary: at least 2 distinct values and at least one repeat; malformed: at least 5 bytes; decoders: at least 2 widths of bytes; dictpage: num_values >= 2; files: at least 2 data pages)")
 	nw := runtime.GOMAXPROCS(0)
 	if nw > 12 {
 		nw = 12
@@ -1585,8 +1590,8 @@ func RunC04Plain(ctx *core.Ctx) {
 	plainKinds := []c4kind{c4Bool, c4Int32, c4Int64, c4Int96, c4Float, c4Double, c4Bytes, c4FLBA(1), c4FLBA(2), c4FLBA(3), c4FLBA(5), c4FLBA(12), c4FLBA(16), c4FLBA(17), c4FLBA(33)}
 	bssKinds := []c4kind{c4Int32, c4Int64, c4Float, c4Double, c4FLBA(1), c4FLBA(2), c4FLBA(3), c4FLBA(4), c4FLBA(5), c4FLBA(7), c4FLBA(8), c4FLBA(12), c4FLBA(16), c4FLBA(17), c4FLBA(33)}
 	dictTypes := c4DictTypes()
-	perKind := ctx.Scale(2600, 26000) // cases per (encoding, type) for the numeric kinds, summed over workers
-	maxLen := ctx.Scale(1100, 6000)
+	perKind := ctx.Scale(2600, 4000) // cases per (encoding, type) for the numeric kinds, summed over workers
+	maxLen := ctx.Scale(1100, 1600)
 
 	// corpus first (one worker), then the deterministic probes
 	{
@@ -1674,7 +1679,7 @@ func RunC04Plain(ctx *core.Ctx) {
 			}
 			lap("bools")
 			// malformed BYTE_ARRAY streams
-			for i := 0; i < share(ctx.Scale(6000, 60000)); i++ {
+			for i := 0; i < share(ctx.Scale(6000, 30000)); i++ {
 				s, origin := w.malformedGen()
 				w.malformedCase(s, origin)
 			}
@@ -1684,27 +1689,27 @@ func RunC04Plain(ctx *core.Ctx) {
 				if k.name == "bool" || k.name == "bytes" {
 					continue
 				}
-				for i := 0; i < share(ctx.Scale(400, 3000)); i++ {
-					w.decoderCase("plain", k, w.decoderStream(k))
+				for i := 0; i < share(ctx.Scale(240, 700)); i++ {
+					w.decoderCase("plain", k, w.decoderStream(k, 4096))
 				}
 			}
 			for _, k := range bssKinds {
-				for i := 0; i < share(ctx.Scale(400, 3000)); i++ {
-					w.decoderCase("bss", k, w.decoderStream(k))
+				for i := 0; i < share(ctx.Scale(240, 700)); i++ {
+					w.decoderCase("bss", k, w.decoderStream(k, 768))
 				}
 			}
 			lap("decoders")
 			// dictionaries
 			for _, t := range dictTypes {
-				for i := 0; i < share(ctx.Scale(1200, 10000)); i++ {
-					c := w.dictGen(t, ctx.Scale(2600, 9000))
+				for i := 0; i < share(ctx.Scale(1200, 3000)); i++ {
+					c := w.dictGen(t, ctx.Scale(2600, 4000))
 					if wi == 0 && i == 0 {
 						ctx.Sample(map[string]any{"dictionary": c4short(c.canon())})
 					}
 					w.dictCase(c)
 				}
 				if t.k.name != "bool" {
-					for i := 0; i < share(ctx.Scale(60, 600)); i++ {
+					for i := 0; i < share(ctx.Scale(60, 300)); i++ {
 						// pre-loaded page with one duplicated entry, then values that occur after the duplicate or are new
 						a := c4Value(t.k, r, 2)
 						b := c4Value(t.k, r, 2)
